@@ -283,7 +283,7 @@ def gen_module(
             parse_name,
         )  # type: tuple[Union[FunctionDef, ClassDef]]
     if emit_and_infer_imports:
-        imports: str = "{}{}".format(
+        imports: str = "{}\n{}".format(
             imports or "",
             "\n".join(
                 map(
